@@ -111,7 +111,7 @@ def check_script(ctx, sc):
             want = [squeeze(text[sp[f][0]:sp[l][1]]) for f, l, k in items]
             ikinds = [k for f, l, k in items]
             d22 = any(k in ('typed', 'paren', 'subq', 'dollar',
-                            'operation-x', 'neg') for k in ikinds)
+                            'operation-x', 'neg', 'tz') for k in ikinds)
             nodes = [n for n in by_start.get(a, [])
                      if isinstance(n, sql.IdentifierList)]
             case = dict(base, clause=text[a:b], list=ctx_name)
@@ -144,8 +144,8 @@ def check_script(ctx, sc):
                 len(kinds) == 1 and kinds[0] in ('case', 'operation',
                                                  'operation-x', 'neg',
                                                  'null', 'bool',
-                                                 'placeholder'))
-            d22a = any(k in ('typed', 'dollar', 'operation-x', 'neg')
+                                                 'placeholder', 'tz'))
+            d22a = any(k in ('typed', 'dollar', 'operation-x', 'neg', 'tz')
                        for k in kinds)
             rec.monitor('function_parameters')
             nodes = [n for n in by_start.get(a, [])
